@@ -45,6 +45,7 @@ class Verifier:
         self.module_globals = {}
         self.global_model = None
         self.log_domain = False
+        self.vacuity_alarms = []
         self._spec_cache = {}
         self._loop_ord = {}
         self.covers = set()
@@ -116,8 +117,12 @@ class Verifier:
             res.paths += 1
             try:
                 self.run_path(I, fn, con)
+                if os.environ.get("PYVC_TRACE"):
+                    print("PATH", dec, "returned at line", I.cur_line)
             except E.PathEnd:
-                pass
+                if os.environ.get("PYVC_TRACE"):
+                    print("PATH", dec, "ended at line", I.cur_line,
+                          I.obls[-1].name if I.obls else "")
             except Unsupported as e:
                 res.undecided.append(f"outside subset: {e}")
             except SpecError as e:
@@ -135,6 +140,9 @@ class Verifier:
                 break
         res.time_gen = time.time() - t0
         res.vacuity = self._vacuity
+        for a_ in self.vacuity_alarms:
+            res.errors.append("vacuity: " + a_)
+        self.vacuity_alarms = []
         if self._vacuity == "unsat":
             res.errors.append("vacuous contract: the preconditions are "
                               "contradictory")
@@ -309,74 +317,124 @@ class Verifier:
 
 
 # ----------------------------------------------------------------------
+def _solve(hyps, goal, timeout_ms, mbqi=None):
+    s = z3.Solver()
+    if mbqi is not None:
+        s.set("smt.mbqi", mbqi)
+    s.set("timeout", int(timeout_ms))
+    for h in hyps:
+        s.add(h)
+    s.add(z3.Not(goal))
+    return s.check(), s
+
+
+def _small_model(o, s, g):
+    """prefer a small (replayable) counterexample: bound the lengths"""
+    try:
+        m = s.model()
+    except z3.Z3Exception:
+        return None
+    try:
+        lens = _len_consts(list(o.hyps) + [g])
+        if lens:
+            for bound in (4, 12):
+                s.push()
+                s.set("timeout", 3000)
+                for ln in lens:
+                    s.add(ln <= bound)
+                if s.check() == z3.sat:
+                    m = s.model()
+                    s.pop()
+                    break
+                s.pop()
+    except z3.Z3Exception:
+        pass
+    return m
+
+
+def _try_refute(o, g, timeout_ms, quick):
+    """model search for a (probably false) obligation"""
+    budget = min(timeout_ms, 5000 if quick else 20000)
+    try:
+        fs = _inst_real_axioms(list(o.hyps) + [z3.Not(g)])
+        if not any(E._has_quant(f) for f in fs):
+            s2 = z3.Solver()
+            s2.set("timeout", budget)
+            for f in fs:
+                s2.add(f)
+            r3 = s2.check()
+            if r3 == z3.sat:
+                o.status, o.solver = "refuted", "z3-ground-exp-instances"
+                o.model = s2.model()
+                return True
+            if r3 == z3.unsat:
+                o.status, o.solver = "discharged", "z3-ground-exp-instances"
+                return True
+    except z3.Z3Exception:
+        pass
+    for N in ((2,) if quick else (2, 3)):
+        try:
+            m = bounded_refute(o, N, budget)
+        except z3.Z3Exception:
+            m = None
+        if m is not None:
+            o.status = "refuted"
+            o.solver = f"z3-bounded-instantiation(N={N})"
+            o.model = m
+            return True
+    return False
+
+
 def discharge(obls, timeout_ms=10000, use_cvc5=False, refute=True):
-    """Decide every obligation: unsat(hyps & !goal) = discharged."""
+    """Decide every obligation: unsat(hyps & !goal) = discharged.
+
+    Staged portfolio (dropping hypotheses is sound for `unsat`):
+      1. E-matching only (mbqi off) on the hypotheses pruned of the
+         log-domain (nonlinear) facts when the goal does not mention them;
+      2. E-matching only on the full query;
+      3. a *quick* counterexample search (bounded instantiation) -- false
+         obligations are recognised here instead of burning the MBQI budget;
+      4. the default configuration with the full budget; cvc5 on unknown;
+      5. the full counterexample search."""
     for o in obls:
         t0 = time.time()
         g = o.goal
         if z3.is_true(z3.simplify(g)):
             o.status, o.solver, o.time = "discharged", "trivial", 0.0
             continue
-        # portfolio: (1) hypotheses pruned of the log-domain (nonlinear)
-        # facts when the goal does not mention them, (2) E-matching only,
-        # (3) the full query.  Dropping hypotheses is sound for `unsat`.
-        r = None
-        hyps = o.hyps
+        o.solver = "z3"
+        o.status = None
+        r, s = None, None
+        pruned = None
         if not _mentions(g, _LOGSYMS):
             pruned = [h for h in o.hyps if not _mentions(h, _LOGSYMS)]
-            if len(pruned) < len(o.hyps):
-                for cfg in ({"smt.mbqi": False}, {}):
-                    s = z3.Solver()
-                    for k_, v_ in cfg.items():
-                        s.set(k_, v_)
-                    s.set("timeout", min(8000 if cfg else 3000, timeout_ms))
-                    for h in pruned:
-                        s.add(h)
-                    s.add(z3.Not(g))
-                    if s.check() == z3.unsat:
-                        r = z3.unsat
-                        break
+            if len(pruned) == len(o.hyps):
+                pruned = None
+        if pruned is not None:
+            r, s = _solve(pruned, g, min(8000, timeout_ms), mbqi=False)
+            if r != z3.unsat:
+                r = None
         if r is None:
-            s = z3.Solver()
-            s.set("smt.mbqi", False)
-            s.set("timeout", min(6000, timeout_ms))
-            for h in o.hyps:
-                s.add(h)
-            s.add(z3.Not(g))
-            if s.check() == z3.unsat:
-                r = z3.unsat
+            r, s = _solve(o.hyps, g, min(6000, timeout_ms), mbqi=False)
+            if r == z3.sat:
+                o.status = "refuted"
+                o.model = _small_model(o, s, g)
+            elif r != z3.unsat:
+                r = None
+        if r is None and refute and _try_refute(o, g, timeout_ms, True):
+            o.time = time.time() - t0
+            continue
+        if r is None and pruned is not None:
+            r, s = _solve(pruned, g, min(3000, timeout_ms))
+            if r != z3.unsat:
+                r = None
         if r is None:
-            s = z3.Solver()
-            s.set("timeout", timeout_ms)
-            for h in o.hyps:
-                s.add(h)
-            s.add(z3.Not(g))
-            r = s.check()
-        o.solver = "z3"
+            r, s = _solve(o.hyps, g, timeout_ms)
         if r == z3.unsat:
             o.status = "discharged"
         elif r == z3.sat:
             o.status = "refuted"
-            try:
-                o.model = s.model()
-            except z3.Z3Exception:
-                o.model = None
-            # prefer a small counterexample (replayable): bound the lengths
-            try:
-                lens = _len_consts(list(o.hyps) + [g])
-                if lens:
-                    for bound in (4, 12):
-                        s.push()
-                        s.set("timeout", 3000)
-                        for ln in lens:
-                            s.add(ln <= bound)
-                        if s.check() == z3.sat:
-                            o.model = s.model()
-                            s.pop()
-                            break
-                        s.pop()
-            except z3.Z3Exception:
-                pass
+            o.model = _small_model(o, s, g)
         else:
             o.status = "unknown"
             o.note = s.reason_unknown()
@@ -387,34 +445,7 @@ def discharge(obls, timeout_ms=10000, use_cvc5=False, refute=True):
                 elif r2 == "sat":
                     o.status, o.solver = "refuted", "cvc5"
             if o.status == "unknown" and refute:
-                try:
-                    fs = _inst_real_axioms(list(o.hyps) + [z3.Not(g)])
-                    if not any(E._has_quant(f) for f in fs):
-                        s2 = z3.Solver()
-                        s2.set("timeout", min(timeout_ms, 20000))
-                        for f in fs:
-                            s2.add(f)
-                        r3 = s2.check()
-                        if r3 == z3.sat:
-                            o.status = "refuted"
-                            o.solver = "z3-ground-exp-instances"
-                            o.model = s2.model()
-                        elif r3 == z3.unsat:
-                            o.status = "discharged"
-                            o.solver = "z3-ground-exp-instances"
-                except z3.Z3Exception:
-                    pass
-            if o.status == "unknown" and refute:
-                for N in (2, 3):
-                    try:
-                        m = bounded_refute(o, N, min(timeout_ms, 20000))
-                    except z3.Z3Exception:
-                        m = None
-                    if m is not None:
-                        o.status = "refuted"
-                        o.solver = f"z3-bounded-instantiation(N={N})"
-                        o.model = m
-                        break
+                _try_refute(o, g, timeout_ms, False)
         o.time = time.time() - t0
     return obls
 
